@@ -95,6 +95,8 @@ class Gen:
     def opt(self, depth, key=None):
         rng = self.rng
         s = {"k": "opt", "key": key or self.key()}
+        if rng.random() < 0.08:
+            s["type"] = rng.choice(["int", "str", "object"])  # Option[int]('A') syntax (type is advisory)
         r = rng.random()
         if r < 0.4:
             pass
@@ -248,6 +250,8 @@ class Gen:
             return {"k": "apply", "src": self.expr(d), "fn": {"name": f"s{self.nid()}", "params": params, "n": self.nid()}}
         if name == "switch":
             s = {"k": "switch", "disp": self.hashable(d), "table": self.table(depth)}
+            if rng.random() < 0.3:
+                s["plain_values"] = True
             if isinstance(s["disp"], dict) and s["disp"]["k"] == "opt" and "dk" not in s["disp"] and rng.random() < 0.5:
                 s["disp"] = s["disp"]["key"]
             if rng.random() < 0.6:
@@ -374,6 +378,17 @@ class Gen:
             d["cache"] = "nocache"
         elif rng.random() < 0.2:
             d["cache"] = "factory"  # created through one shared, configured decorator (cache=<callable>)
+        via = {}
+        if rng.random() < 0.15 and d.get("args"):
+            via["defaults"] = rng.choice(["where", "kwarg"])
+        if d.get("cache") == "nocache" and rng.random() < 0.5:
+            via["nocache_property"] = True
+        elif d.get("cache") in (None, "memory") and rng.random() < 0.15:
+            via["set_cache"] = rng.choice(["instance", "callable"])
+        if d.get("effects") and rng.random() < 0.3:
+            via["add_effects"] = rng.choice(["all", "one-by-one"])
+        if via:
+            d["via"] = via
         self.program["datasets"][did] = d
         return did
 
